@@ -489,8 +489,11 @@ class Interp:
             t = n["t"]
             if t == "fill":
                 name = self.expr(env, n["name"])
-                if name is WILD:
+                if name is WILD or name is WILD2:
                     raise WildCondition()
+                if not isinstance(name, str):
+                    # the name variable was shadowed by a non-string (e.g. a slot-data dict): outside the domain, skipped
+                    raise ModelBudget("fill name is not a string")
                 acc.append((name, n, dict(between)))
             elif t == "if":
                 c = self.truthy(self.lookup(env, n["n"]))
